@@ -1,7 +1,7 @@
 SPECIFICATION MCSpec
 CONSTANTS
   Pods = {1, 2}
-  Rpcs = {1, 2}
+  Rpcs = {1}
   Enis = {1, 2}
   Cids = {1, 2}
   Enforce = {"C04", "C05", "C09"}
@@ -11,6 +11,7 @@ CONSTANTS
   MaxKill = 1
   MaxDetach = 0
   MaxEnv = 1
+  NPS = 4
   MaxFail = 1
 INVARIANTS AckedExclusive AckedOnDisk OneWriter GcAlone
 VIEW MCView
